@@ -173,7 +173,7 @@ def gen_cases(ctx: Check, cls: str) -> list[Case]:
         if depth <= ctx.pick(9, 17):
             for seq in directed_ops(depth, width, rng):
                 cases.append(_mk(cls, depth, lay, [strip(c) for c in seq], "directed"))
-        n = ctx.pick(120, 1500)
+        n = ctx.pick(120, 800)
         for reg in REGIMES[: ctx.pick(5, 7)]:
             cases.append(_mk(cls, depth, lay, [strip(c) for c in random_ops(rng, n, width, *reg)], "random"))
     if ctx.thorough:
@@ -203,10 +203,13 @@ def run(ctx: Check):
     )
     ctx.proof_stage()
     procs = ctx.pick(1, 8)
-    for cls, corr in (("basic", "basicfifo"), ("fifo", "fifo-syncfifo-wrapper")):
-        cases = gen_cases(ctx, cls)
-        ctx.count(f"configs_{cls}", len({c.cfg for c in cases}))
-        lockstep(ctx, corr, "C14", cases, impl, monitor, more_cases, nontrivial, procs=procs)
+    # one Lean driver process serves both classes (the cfg line of a case selects the model)
+    cases = []
+    for cls in ("basic", "fifo"):
+        cs = gen_cases(ctx, cls)
+        ctx.count(f"configs_{cls}", len({c.cfg for c in cs}))
+        cases += cs
+    lockstep(ctx, "basicfifo+fifo-syncfifo-wrapper", "C14", cases, impl, monitor, more_cases, nontrivial, procs=procs)
     ctx.note("BasicFifo.read/.write have constant ready=1 in the source; their effective readiness (through the allocator's "
              "alloc/free) is observed as done-when-attempted; peek.ready = allocator.free.ready is compared every cycle")
 
